@@ -586,3 +586,93 @@ pub fn rand_script_by(rng: &mut Rng, la: usize, lb: usize, eq: &dyn Fn(usize, us
     }
     steps
 }
+
+/// Inputs with special STRUCTURE rather than size: all-equal, strictly alternating, palindromes,
+/// one side a prefix / suffix / rotation / reversal of the other, duplicated halves, interleavings.
+pub fn structured_pair(rng: &mut Rng, max: usize) -> (Vec<u32>, Vec<u32>, &'static str) {
+    let n = rng.below(max + 1);
+    let alpha = 1 + rng.below(4) as u32;
+    let base: Vec<u32> = match rng.below(5) {
+        0 => vec![1; n],
+        1 => (0..n as u32).map(|i| i % 2).collect(),
+        2 => (0..n as u32).map(|i| i % 3).collect(),
+        3 => (0..n as u32).collect(),
+        _ => (0..n).map(|_| rng.below(alpha as usize) as u32).collect(),
+    };
+    let pal = |v: &[u32]| -> Vec<u32> {
+        let mut p = v.to_vec();
+        p.extend(v.iter().rev());
+        p
+    };
+    match rng.below(12) {
+        0 => (base.clone(), base.iter().rev().copied().collect(), "reversal"),
+        1 => {
+            let k = rng.below(base.len() + 1);
+            (base.clone(), base[..k].to_vec(), "prefix")
+        }
+        2 => {
+            let k = rng.below(base.len() + 1);
+            (base.clone(), base[k..].to_vec(), "suffix")
+        }
+        3 => {
+            let mut b = base.clone();
+            if !b.is_empty() {
+                let r = rng.below(b.len());
+                b.rotate_left(r);
+            }
+            (base, b, "rotation")
+        }
+        4 => {
+            let mut b = base.clone();
+            b.extend_from_slice(&base);
+            (base, b, "doubled")
+        }
+        5 => (pal(&base), base, "palindrome_vs_half"),
+        6 => {
+            let p = pal(&base);
+            let mut q = p.clone();
+            if !q.is_empty() {
+                let i = q.len() / 2;
+                q.insert(i, 99);
+            }
+            (p, q, "palindrome_with_centre")
+        }
+        7 => {
+            // interleaving: a0 b0 a1 b1 ... vs a0 a1 ... b0 b1 ...
+            let half = base.len() / 2;
+            let (x, y) = base.split_at(half);
+            let mut inter = Vec::new();
+            for i in 0..half.max(y.len()) {
+                if i < x.len() {
+                    inter.push(x[i]);
+                }
+                if i < y.len() {
+                    inter.push(y[i]);
+                }
+            }
+            (base.clone(), inter, "interleaving")
+        }
+        8 => {
+            let a = vec![1u32; n];
+            let b = vec![1u32; rng.below(max + 1)];
+            (a, b, "all_equal_different_lengths")
+        }
+        9 => {
+            let a: Vec<u32> = (0..n as u32).map(|i| i % 2).collect();
+            let b: Vec<u32> = (0..n as u32).map(|i| (i + 1) % 2).collect();
+            (a, b, "alternating_phase_shift")
+        }
+        10 => {
+            // every item doubled
+            let b: Vec<u32> = base.iter().flat_map(|x| [*x, *x]).collect();
+            (base, b, "each_item_doubled")
+        }
+        _ => {
+            // swap the two halves
+            let half = base.len() / 2;
+            let mut b = base[half..].to_vec();
+            b.extend_from_slice(&base[..half]);
+            (base, b, "halves_swapped")
+        }
+    }
+}
